@@ -13,6 +13,7 @@ import networkx as nx
 from gcmpy.covers.mpcc import MPCC
 
 from ..engine import describe_exc
+from .. import interesting
 
 ID = "C10"
 RUNS = {"quick": 32000, "thorough": 200000, "thorough_s": 300}
@@ -25,7 +26,8 @@ RULE = ("seeded simple loop-free graphs with 1..9 vertices (thorough ..11) incl.
         "rotation/adjacent swaps; aborts mid-shuffle then a new cover; non-trivial = graph has >= 2 edges; distinct = "
         "distinct execution digests; 0.4% of runs: a complete graph of 12-16 vertices plus a pendant edge; thorough tier only: one "
         "cycle of 6e5 vertices (more than a million trivial cliques) and one 21-/22-clique with a triangle and a pendant edge "
-        "attached (2-4 million nested cliques, limit 0 / 100 / 2^31) per invocation")
+        "attached (2-4 million nested cliques, limit 0 / 100 / 2^31) per invocation; both tiers: one graph of more than 2^20 vertices (almost all isolated, small "
+        "cliques at low positions, beyond 2^20 and across, incl. pairs that alias under a 20-bit packing of positions)")
 ASSUMPTIONS = ["oracle enumerates all cliques by brute force over vertex subsets grown from adjacency (independent of "
                "nx.enumerate_all_cliques)", "vertex labels are non-negative ints (label parsing splits on '-')"]
 REAL = ["gcmpy.covers.mpcc.MPCC", "networkx enumerate_all_cliques (inside the library)", "CPython random.shuffle"]
@@ -60,6 +62,8 @@ def gen_graph(prng, big):
         labels = [x + off for x in labels]
     if prng.random() < 0.3:
         prng.shuffle(labels)
+    if prng.random() < 0.05:
+        labels = interesting.hash_twins(prng, labels)           # two vertices with equal hashes
     es = sorted([labels[a], labels[b]] for a, b in edges)
     prng.shuffle(es)
     es = [e if prng.random() < 0.5 else e[::-1] for e in es]
@@ -83,6 +87,13 @@ def generate(prng, tier, index):
         # million cliques nested inside each other, with an unbounded or effectively unbounded size limit
         return {"variant": "clean", "nodes": None, "edges": None, "bigclique": prng.choice((21, 21, 22)),
                 "limits": [0, prng.choice((100, 2 ** 31))], "policy": {"shuffle": ["uniform"]}, "attrs": False, "scale": True}
+    if index == 2:
+        # scale in a THIRD direction (both tiers: ~15 s and ~1 GB in one worker): more than 2^20 vertices, almost all isolated, with small
+        # cliques sitting at low positions, at positions beyond 2^20, and across (anything indexed, packed or hashed by vertex
+        # POSITION with a fixed width only shows when the position space is exceeded)
+        return {"variant": "clean", "nodes": None, "edges": None, "manyverts": 2 ** 20 + prng.randrange(140, 200),
+                "limits": [prng.choice((0, 3, 4))], "policy": {"shuffle": [prng.choice(("uniform", "identity", "reverse"))]},
+                "attrs": False, "scale": True, "place_seed": prng.randrange(2 ** 31)}
     nodes, es = gen_graph(prng, tier == "thorough")
     if prng.random() < 0.004:
         # a complete graph beyond the usual sizes (4e3 - 6.5e4 nested cliques) plus a pendant edge
@@ -263,7 +274,87 @@ def _bigclique_once(sc, ctx, limit):
     ctx.result(n, limit, sorted(len(m) for m in got))
 
 
+def execute_manyverts(sc, ctx):
+    """n > 2^20 vertices inserted in label order, vertex-disjoint cliques of 2-4 vertices as the only edges: every component is
+    a clique, so the cover is forced (each component one label, when the limit allows its size).  Components are placed on
+    low positions, on positions >= 2^20 and across, including pairs (a, 2^20 + c) / (a + 1, c) that alias under a 20-bit
+    packing of positions."""
+    import random as _r
+    P = "C10"
+    n, limit = sc["manyverts"], sc["limits"][0]
+    rng = _r.Random(sc["place_seed"])
+    W = 2 ** 20
+    low = list(range(0, 128))
+    high = list(range(W, n))
+    rng.shuffle(low); rng.shuffle(high)
+    comps = []
+    used = set()
+
+    def take(vs):
+        if any(v in used for v in vs) or len(set(vs)) != len(vs):
+            return False
+        used.update(vs)
+        comps.append(list(vs))
+        return True
+    # aliasing pairs for a 20-bit position width: with a even and c > a + 1 the edges (a, 2^20 + c) and (a + 1, c) get the same
+    # packed key under (pos_u << 20) | pos_v as well as under (pos_u << 20) + pos_v
+    for c in rng.sample(range(60, 128), 8):
+        a = 2 * rng.randrange(0, 25)
+        if W + c < n:
+            take([a, W + c]) and take([a + 1, c])
+    for _ in range(12):
+        k = rng.choice((2, 3, 3, 4))
+        pool = rng.choice((low, high, low + high))
+        vs = [v for v in pool if v not in used][:k] if pool is not (low + high) else rng.sample([v for v in low + high if v not in used], k)
+        if len(vs) == k:
+            take(vs)
+    G = nx.Graph()
+    G.add_nodes_from(range(n))
+    for c in comps:
+        G.add_edges_from(combinations(c, 2))
+    E = G.number_of_edges()
+    src = ctx.source("order", sc.get("policy"))
+    st, R = ctx.call(src, MPCC, G, limit, budget=None, label="MPCC[many vertices]")
+    if st != "ok":
+        ctx.violate(f"{P}.raised", f"MPCC(max_size={limit}) on {n} vertices with {len(comps)} small cliques: {st} {describe_exc(R) if st == 'raised' else ''}")
+        return
+    ctx.probe("manyverts_run_vertices", n)
+    ctx.check(f"{P}.same"); ctx.check(f"{P}.labelled"); ctx.check(f"{P}.complete"); ctx.check(f"{P}.ids"); ctx.check(f"{P}.greedy")
+    if R.number_of_nodes() != n or R.number_of_edges() != E:
+        ctx.violate(f"{P}.same", f"cover has {R.number_of_nodes()} vertices and {R.number_of_edges()} edges, the graph {n} and {E}")
+        return
+    by, ids = {}, set()
+    for u, v, d in R.edges(data=True):
+        lab = d.get("clique")
+        if not isinstance(lab, str):
+            ctx.violate(f"{P}.labelled", f"edge {sorted((u, v))} (positions {'beyond' if max(u, v) >= W else 'below'} 2^20) carries no cover label "
+                                         f"on a graph of {n} vertices")
+            return
+        by.setdefault(lab, []).append(frozenset((u, v)))
+    got = {}
+    for lab, es in by.items():
+        size, members, cid = parse(lab)
+        if cid in ids:
+            ctx.violate(f"{P}.ids", f"id {cid} used by two labels")
+            return
+        ids.add(cid)
+        if size != len(set(members)) or {frozenset(p) for p in combinations(sorted(set(members)), 2)} != set(es):
+            ctx.violate(f"{P}.complete", f"label of size {size} ({sorted(set(members))}) is carried by edges that are not exactly the pairs of its members")
+            return
+        got[frozenset(members)] = len(es)
+    for c in comps:
+        if limit in (0,) or len(c) <= limit:
+            if frozenset(c) not in got:
+                ctx.violate(f"{P}.greedy", f"component {sorted(c)} is a {len(c)}-clique (max_size={limit}) but the cover splits it into "
+                                           f"{sorted(sorted(m) for m in got if m <= frozenset(c))} on a graph of {n} vertices")
+                return
+    ctx.nedges = E
+    ctx.result(n, limit, sorted(len(m) for m in got))
+
+
 def execute_scale(sc, ctx):
+    if sc.get("manyverts"):
+        return execute_manyverts(sc, ctx)
     if sc.get("bigclique"):
         return execute_bigclique(sc, ctx)
     P = "C10"
